@@ -57,7 +57,7 @@ class TParser(RealParser):
             raise
         if not before and self.is_headers_complete() and self.t_blk is None:
             i = data.find(b'\r\n\r\n')
-            self.t_blk = b'' if data == b'\r\n' else data[:i]
+            self.t_blk = b'' if data[:2] == b'\r\n' else data[:i]
         return r
 
 
@@ -127,13 +127,15 @@ def table_sizes(http):
 
 
 def tc(x):
-    """byte strings are compared by length and checksum (Model/HttpFramingObs.Tc)"""
+    """byte strings up to 64 bytes are compared literally, longer ones by length and checksum (HttpFramingObs.Tc)"""
     if isinstance(x, str):
         x = x.encode('latin-1')
+    if len(x) <= 64:
+        return [0, x.decode('latin-1')]
     acc = 0
     for b in x:
         acc = (acc * 257 + b + 1) % 1000000007
-    return [len(x), acc]
+    return [1, len(x), acc]
 
 
 def kstate(st):
@@ -523,6 +525,8 @@ def gen_request(rng, features=None):
     else:
         body, wire = '', ''
     lines, exp_h = gen_headers(rng, base)
+    if bk == 'none' and ver == '1.0' and rng.random() < 0.3:
+        lines, exp_h = [], {}           # empty header section
     data = fl + CRLF + ''.join(l + CRLF for l in lines) + CRLF + wire
     return {'bytes': data, 'fl': fl, 'nh': len(lines), 'bk': bk, 'head_len': len(data) - len(wire),
             'expect': {'method': method, 'path': path, 'qs': qs, 'version': [1, int(ver[2])], 'headers': exp_h,
@@ -559,8 +563,11 @@ def gen_response(rng, features=None):
     else:
         body, wire = '', ''
     lines, exp_h = gen_headers(rng, base)
-    data = fl + CRLF + ''.join(l + CRLF for l in lines) + CRLF + wire
     completes = bk in ('cl', 'cl0', 'chunked')
+    if bk in ('eof', 'nobody') and rng.random() < 0.25:
+        lines, exp_h = [], {}           # empty header section; a 204 without fields is complete by itself
+        completes = code == 204 and not wire
+    data = fl + CRLF + ''.join(l + CRLF for l in lines) + CRLF + wire
     return {'bytes': data, 'fl': fl, 'nh': len(lines), 'bk': bk, 'head_len': len(data) - len(wire),
             'expect': {'status': code, 'version': [1, int(ver[2])], 'headers': exp_h, 'body': body,
                        'completes': completes}, 'info': info}
@@ -605,7 +612,7 @@ class C13(Prop):
     rule = ('grammar-generated HTTP/1.0 and 1.1 requests (7 methods, paths with query, header sets with case variants, '
             'obs-fold continuation lines, bodies: none / Content-Length (incl. 0, bytes containing CRLF, "0 CRLF CRLF", '
             'request lines) / chunked with extensions, leading zeros, upper-case hex, trailers) and responses (status '
-            'lines incl. 204/304, Content-Length, chunked, read-until-close), alone or as keep-alive sequences of 2-3 '
+            'lines incl. 204/304, Content-Length, chunked, read-until-close; with header fields or with an empty header section), alone or as keep-alive sequences of 2-3 '
             'messages; cut byte-at-a-time, at one random point, next to CR/LF bytes, at several random points, or not at '
             'all; plus an exhaustive every-single-cut sweep of a few messages per run; driven through the raw HttpParser, '
             'through web.HTTP with a fake socket, and through web.client.Client. non-trivial = at least one cut.')
@@ -616,7 +623,7 @@ class C13(Prop):
                     'python oracle in harness/c13.py (one-piece vs segmented; generator knowledge of the message)']
     assumptions = ['reads are non-empty (the socket layer closes instead of firing read(b""))',
                    'no pipelining: a read never spans two messages',
-                   'responses with an empty header section and a body are known finding C13-headerless-response',
+                   'the client components never signal the end of the connection to the parser: responses delimited by it are never delivered, in any segmentation (C13_client_until_close)',
                    'Content-Encoding (decompression), Connection: upgrade, unparsable Content-Length are outside the model']
 
     def __init__(self):
@@ -662,21 +669,6 @@ class C13(Prop):
             m['bk'] = 'malformed'
             m['cuts'] = gen_cuts(rng, m['bytes'], rng.choice(MODES))
             cases.append(self._mk(rng.choice(['parser0', 'server']), [m]))
-        # headerless messages (requests: fine; responses: the open finding)
-        for _ in range(max(2, n // 60)):
-            if rng.random() < 0.5:
-                data = 'GET /p HTTP/1.0' + CRLF + CRLF
-                m = {'bytes': data, 'bk': 'none', 'nh': 0, 'expect': {'method': 'GET', 'path': '/p', 'qs': '', 'version': [1, 0],
-                                                                       'headers': {}, 'body': ''}}
-                k = rng.choice(['parser0', 'server'])
-            else:
-                body = gen_body(rng, False)
-                data = 'HTTP/1.0 200 OK' + CRLF + CRLF + body
-                m = {'bytes': data, 'bk': 'eof', 'nh': 0, 'expect': {'status': 200, 'version': [1, 0], 'headers': {},
-                                                                      'body': body, 'completes': False}}
-                k = rng.choice(['parser1', 'client'])
-            m['cuts'] = gen_cuts(rng, m['bytes'], rng.choice(MODES))
-            cases.append(self._mk(k, [m]))
         return cases
 
     def extra_checks(self, tier, rng, results):
@@ -859,10 +851,7 @@ class C13(Prop):
         return None
 
     def finding_class(self, c, obs, what):
-        if (what.startswith('segmentation') and c['k'] in ('parser1', 'client') and len(c['msgs']) == 1
-                and c['msgs'][0]['nh'] == 0 and c['msgs'][0]['bk'] == 'eof' and c['msgs'][0]['expect']['body']):
-            return 'C13-headerless-response'
-        return None
+        return None      # no open finding
 
     def nontrivial(self, c, obs):
         return any(m['cuts'] for m in c['msgs'])
